@@ -103,6 +103,14 @@ SchedulesFrom(c, a) ==
 
 (* ---- conformance to Expansion.tla: stricter than C14 (task order, node ids, loop control, the model's network);  *)
 (* a failure here is reported as a deviation from the specification, not as a violation of C14                      *)
+(* run.flat = [cfg, list]: what ReactionDeltaFlattener returned for the final network, sets as lists *)
+FlatOK(run) ==
+   LET want == FlatList(ToState(FinalOf(run)), run.flat.cfg)
+       got  == run.flat.list
+   IN /\ Len(got) = Len(want)
+      /\ \A k \in DOMAIN got : /\ got[k].id = want[k].id /\ got[k].step = want[k].step /\ got[k].rule = want[k].rule
+                                 /\ got[k].app = want[k].app /\ Range(got[k].r) = want[k].r /\ Range(got[k].p) = want[k].p
+
 RECURSIVE ConformsFrom(_, _)
 ConformsFrom(c, a) ==
    IF a > Len(c.runs) THEN "ok"
@@ -113,6 +121,7 @@ ConformsFrom(c, a) ==
 Conformance(c) ==
    LET v == ConformsFrom(c, 1)
    IN IF v # "ok" THEN v
+      ELSE IF \E a \in DOMAIN c.runs : "flat" \in DOMAIN c.runs[a] /\ ~FlatOK(c.runs[a]) THEN "flattened-reaction-list-differs-from-FlatList"
       ELSE IF "expect" \in DOMAIN c /\ Net(FinalOf(c.runs[1])) # Net(c.expect) THEN "network-differs-from-the-model's"
       ELSE IF "expect" \in DOMAIN c /\ Cardinality(FinalSeen(c.runs[1])) # c.expect.nseen THEN "attempted-set-differs-from-the-model's"
       ELSE "ok"
